@@ -4,6 +4,7 @@
 package engine
 
 import (
+	"strconv"
 	"bufio"
 	"encoding/json"
 	"flag"
@@ -181,6 +182,7 @@ func Main() {
 	tier := flag.String("tier", "quick", "quick|thorough")
 	out := flag.String("out", "", "output file (JSON lines), default stdout")
 	tapeFile := flag.String("tape", "", "run once from this tape file ({\"tape\":[draws]} strict, or {\"values\":[ints]} lenient)")
+	seedList := flag.String("seeds", "", "comma-separated seeds: run exactly these, in this order, in this one process (process-history replay); only the last outcome is written")
 	budget := flag.Duration("budget", 0, "stop starting new runs after this long")
 	keepTape := flag.Bool("keeptape", false, "include the tape in every outcome line")
 	verbose := flag.Bool("v", false, "verbose")
@@ -303,6 +305,28 @@ func Main() {
 		}
 		o := one(t, tf.Seed, true)
 		enc.Encode(o)
+		return
+	}
+	if *seedList != "" {
+		// a run whose verdict depends on what the process did before (process-wide caches, pools, counters)
+		// is replayed with its history: the same seeds, in the same order, in a fresh process
+		var last *Outcome
+		list := strings.Split(*seedList, ",")
+		for i, f := range list {
+			s, err := strconv.ParseUint(strings.TrimSpace(f), 10, 64)
+			if err != nil {
+				fmt.Fprintln(os.Stderr, "bad seed list:", err)
+				os.Exit(2)
+			}
+			last = one(verifsim.NewTape(s), s, i == len(list)-1)
+			select {
+			case progress <- struct{}{}:
+			default:
+			}
+		}
+		if last != nil {
+			enc.Encode(last)
+		}
 		return
 	}
 	start := time.Now()
